@@ -5,6 +5,10 @@ from .common import *
 from . import mirror
 
 PID = "C01"
+META = {
+    "explanation": "Static analysis of the writer/reader bookkeeping on the compiler's MIR of the current tree (default and all-features builds): entry count incremented once per insert and plumbed to trailer and Reader::len (R1), codec plumbing on both sides (R2), codec dispatch tables and from_u8 on all 256 ids (R3), every block write paired with a parent index entry whose offset is read before the write (R4), finish order with the trailer last (R5), depth arithmetic (R6), mirror agreement of forward/backward twins (R7), pending non-empty block always flushed (R8). These are necessary conditions of an exact round trip; byte equality through the codec crates is not decided.",
+    "assumptions": ["the codec crates return the bytes they were given", "std Vec/slice/Option semantics"],
+}
 
 
 # ---------------------------------------------------------------------------------------
@@ -107,6 +111,7 @@ def run(ck):
         ck.guard("C01-R5", r5_finish_order, ck, F)
         ck.guard("C01-R6", r6_depth, ck, F)
         ck.guard("C01-R7", r7_mirror, ck, F)
+        ck.guard("C01-R8", r8_pending_block, ck, F)
     ck.trusted += ["rustc MIR construction", "the codec crates (snap, flate2, lz4_flex, zstd): block bytes in = block bytes out", "std Vec/slice semantics (last_mut, split_last_mut)"]
 
 
@@ -368,8 +373,7 @@ def writer_sink_mut(e):
     return is_self_field(e, "writer")
 
 
-def r4_index_pair(ck, F):
-    R = "C01-R4"
+def r4_index_pair(ck, F, R="C01-R4"):
     npaired = nroot = 0
     for path in (A("writer_insert"), A("writer_into_inner")):
         b = F.body(path)
@@ -536,8 +540,40 @@ def r6_depth(ck, F):
 
 
 # ---------------------------------------------------------------------------------------
-def r7_mirror(ck, F):
-    R = "C01-R7"
+def r8_pending_block(ck, F):
+    """a block that holds at least one entry is always flushed: `last_key()` is Some exactly when an
+    entry was inserted since the last flush (getter is a pure projection, insert sets it on both
+    arms, only the post-flush reset clears it), and both flush sites test exactly that"""
+    R = "C01-R8"
+    from .c18 import r1_order_assert, r3_lastkey_life
+    from .c03 import r5_wrappers
+    lk = F.body(A("bw_last_key"))
+    e = lk.expr_at_return()
+    pure = is_self_field(e, "last_key") or (is_call(e, "Option::<T>::map") and is_self_field(e.strip().a[0], "last_key") and e.strip().a[1].k == "fn" and e.strip().a[1].x["path"].endswith("AsRef::as_ref"))
+    ck.ob(R, "last-key-getter-pure", pure and len(list(lk.calls())) <= 2, f"BlockWriter::last_key is a pure view of the field: {e.show()}", lk)
+    r3_lastkey_life(ck, F, R)
+    r1_order_assert(ck, F, R)
+    # both flush sites of the data block are guarded by last_key() being Some and nothing else
+    for path in (A("writer_insert"), A("writer_into_inner")):
+        b = F.body(path)
+        for site, c, t in calls(b, A("write_block")):
+            if not is_self_field(b.arg_exprs(site)[1], "block_writer"):
+                continue
+            guards = []
+            for bb in sorted(b.normal_blocks()):
+                if b.term(bb)["t"] == "switch" and b.dominates(bb, site.bb) and bb != site.bb:
+                    succs_dom = [x for x in b.succs(bb) if b.dominates(x, site.bb)]
+                    if len(succs_dom) == 1 and len(b.succs(bb)) > 1:
+                        e2 = b.expr_of_operand(b.term(bb)["discr"], Site(bb, None))
+                        guards.append(e2.show()[:70])
+            want_max = 3 if path == A("writer_insert") else 2
+            ok = any("BlockWriter::last_key(self.block_writer)" in g for g in guards) and len(guards) <= want_max
+            ck.ob(R, f"flush-guard/{path.split('::')[-1]}", ok, f"data block flush is guarded by {guards}", b, site)
+    # the backward scan enters the previous index block at its last entry (shared with C03-R5)
+    r5_wrappers(ck, F, R)
+
+
+def r7_mirror(ck, F, R="C01-R7"):
     rc = A("rc_prefix")
     ibc = A("ibc_prefix")
     pairs = [
